@@ -208,3 +208,24 @@ pub fn anon_region<B: vm_memory::bitmap::NewBitmap>(size: usize) -> Result<vm_me
         vm_memory::MmapRegion::<B>::from_range(vm_memory::MmapRange::new_unix(size, None, vm_memory::GuestAddress(0)))
     }
 }
+
+/// A bitmap covering `total` bytes: built in one go or, for a third of the runs, smaller and
+/// then grown by `enlarge` in one or two steps that are not multiples of the page size.
+pub fn grown_bitmap(total: usize, ps: usize) -> vm_memory::bitmap::AtomicBitmap {
+    use vm_memory::bitmap::AtomicBitmap;
+    let psn = std::num::NonZeroUsize::new(ps).unwrap();
+    let c = crate::sim::cx();
+    if total < 2 || c.a(3) != 0 {
+        return AtomicBitmap::new(total, psn);
+    }
+    let first = 1 + c.a(total as u32 - 1) as usize;
+    let mut b = AtomicBitmap::new(first, psn);
+    let rest = total - first;
+    let step = if rest > 1 && c.a(2) == 0 { 1 + c.a(rest as u32 - 1) as usize } else { rest };
+    b.enlarge(step);
+    if rest > step {
+        b.enlarge(rest - step);
+    }
+    c.count("probe.bitmap_grown_by_enlarge");
+    b
+}
